@@ -21,6 +21,7 @@ import (
 	"net"
 	"net/http"
 	"os"
+	"runtime"
 	"runtime/debug"
 	"sort"
 	"strconv"
@@ -1133,6 +1134,18 @@ func (r *hcRun) check() *vs.Violation {
 			// FLOW_CONTROL_ERROR by the next quiescent point
 			if st.overSent && st.overEndOff > 0 && st.overEndOff <= dBA {
 				if !cn.flowErr {
+					if hcDebugHash && cn.cc != nil {
+						cc := cn.cc
+						cc.mu.Lock()
+						cs := cc.streams[st.id]
+						fmt.Printf("HCDEBUG conn inflow=%+v closed=%v nstreams=%d cs=%v\n", cc.inflow, cc.closed, len(cc.streams), cs != nil)
+						if cs != nil {
+							fmt.Printf("HCDEBUG stream inflow=%+v readAborted=%v readClosed=%v pastHeaders=%v\n", cs.inflow, cs.readAborted, cs.readClosed, cs.pastHeaders)
+						}
+						cc.mu.Unlock()
+						buf := make([]byte, 1<<16)
+						fmt.Printf("HCDEBUG stacks\n%s\n", buf[:runtime.Stack(buf, true)])
+					}
 					return vs.Violf("C11", "over_window_not_rejected", "cli:over_window_accepted", "conn %d stream %d: DATA exceeding the advertised window was delivered but the client reported no FLOW_CONTROL_ERROR (rst=%v/%v goaway=%v/%v closed=%v)", cn.idx, st.id, st.cliRst, st.cliRstCode, cn.cliGoAway, cn.cliGoAwayCd, cn.cliClosed)
 				}
 				st.overEndOff = -1
